@@ -159,8 +159,6 @@ type Path struct {
 	ghost     map[string][]Value
 	fnCount   map[*ssa.Function]int
 	clock     *Term
-	clockSec  *Term
-	clockFrac *Term
 	extra     map[string]any
 	fnSteps   map[*ssa.Function]int
 	makeCap   int
